@@ -100,6 +100,11 @@ func (m *c05Model) gaps() [][2]uint16 {
 
 func genC05(rt *rapid.T) c05Scn {
 	sc := c05Scn{RBuf: rapid.SampledFrom([]int{0, 0, 300000, 200000, 100000, 750000, 1 << 20, 2 << 20, 8 << 20, 16 << 20, 64 << 20}).Draw(rt, "rbuf")}
+	if rapid.IntRange(0, 2).Draw(rt, "rbufodd") == 0 {
+		// any size: the window derived from it is then not a multiple of 64, and the number of
+		// 64-bit words sits anywhere between two powers of two
+		sc.RBuf = rapid.IntRange(200000, 5200000).Draw(rt, "rbufany")
+	}
 	w := vfWindowFor(sc.RBuf)
 	sc.Cum = genTSN(rt, "cum", w)
 	n := rapid.IntRange(1, 60).Draw(rt, "nops")
@@ -355,6 +360,9 @@ type c05Wire struct {
 
 func genC05Wire(rt *rapid.T) c05Wire {
 	sc := c05Wire{IL: rapid.Bool().Draw(rt, "il"), RBuf: rapid.SampledFrom([]int{0, 300000, 200000, 1 << 20}).Draw(rt, "rbuf")}
+	if rapid.IntRange(0, 3).Draw(rt, "rbufodd") == 0 {
+		sc.RBuf = rapid.IntRange(200000, 1500000).Draw(rt, "rbufany")
+	}
 	w := int(vfWindowFor(sc.RBuf))
 	sc.TSN = genTSN(rt, "tsn", uint32(w))
 	n := rapid.IntRange(1, 40).Draw(rt, "n")
